@@ -223,6 +223,7 @@ template <class T, class S0, class S1, class S2> struct MU : UniverseBase {
     }
 
     void ctor_layout(Cx &cx);
+    void cross_handle(Cx &cx);
     void step(int si, const Step &st, uint32_t kind, const char *opname, Verdict &v, Counters *cnt, StepInfo &info, Hash &h) override {
         Cx cx{si, &st, opname, &v, cnt, &info, &h};
         info.kind = KINDNAME[kind];
@@ -242,6 +243,8 @@ template <class T, class S0, class S1, class S2> struct MU : UniverseBase {
             if (memcmp(buf, shadow.data(), sizeof(T) * SZ) != 0) { v.set(si, "divergence/source_write", opname, "%s: writing through the source did not have the expected effect", opname); return; }
         } else if (kind == K_CTOR_LAYOUT) {
             ctor_layout(cx);
+        } else if (kind == K_CROSS_HANDLE) {
+            cross_handle(cx);
         } else {
             switch (hi) { case 0: on_handle(*h0, (Ten0 *)nullptr, S0{}, kind, 0, cx); break; case 1: on_handle(*h1, (Ten1 *)nullptr, S1{}, kind, 1, cx); break; default: on_handle(*h2, (Ten2 *)nullptr, S2{}, kind, 2, cx); }
         }
@@ -257,6 +260,36 @@ template <class T, class S0, class S1, class S2> struct MU : UniverseBase {
         if (cnt) { cnt->bump("probe/cross-handle reads", 3); if (last_writer >= 0 && last_writer != 3) cnt->bump("probe/write through one handle observed through the others"); }
     }
 };
+
+// one handle assigned from ANOTHER handle (or the source) of the same storage: h_i op= h_j. The twin of the right-hand side is an owning
+// tensor holding the same values, so the expected effect is that of `t_i op= t_j` on two independent owning tensors.
+template <class T, class S0, class S1, class S2> void MU<T, S0, S1, S2>::cross_handle(Cx &cx) {
+    const Step &st = *cx.st; int hi = (int)(st.a[A_HANDLE] % 3), hj = (int)((hi + 1 + st.a[A_RHS] % 2) % 3); int op = (int)(st.a[A_OP] % 4);   // =, +=, -=, *=
+    normalise(cx.si);
+    bool from_source = storage == 1 && (st.a[A_X] & 1);
+    auto go = [&](auto &hd, auto *tenp, auto &hs, auto *tensp) {
+        using Ten = typename std::remove_pointer<decltype(tenp)>::type; using TenS = typename std::remove_pointer<decltype(tensp)>::type;
+        Ten tw; memcpy(tw.data(), shadow.data(), sizeof(T) * SZ); TenS ts; memcpy(ts.data(), shadow.data(), sizeof(T) * SZ);
+        Outcome ot = window([&] { do_assign(op, tw, ts); }, false);
+        if (ot.kind != 0) { cx.info->kind = "aborted"; return; }
+        Outcome o = from_source ? window([&] { do_assign(op, hd, *src); }, failalloc) : window([&] { do_assign(op, hd, hs); }, failalloc);
+        snprintf(cx.info->desc, sizeof cx.info->desc, "h%d %s %s (same storage)", hi, OPNAME[op], from_source ? "the owning source" : (hj == 0 ? "h0" : hj == 1 ? "h1" : "h2"));
+        cx.info->sig = mix2(0xc4, (uint64_t)op * 16 + (uint64_t)hi * 4 + (uint64_t)hj + (from_source ? 64 : 0)); cx.info->nontrivial = true;
+        if (o.kind == 1) { char d[200]; o.describe(d, sizeof d); cx.v->set(cx.si, "fault/cross_handle", cx.opname, "%s: %s raised %s", cx.opname, cx.info->desc, d); return; }
+        if (o.kind != 0) { cx.info->kind = "aborted"; return; }
+        cx.h->bytes(buf, sizeof(T) * SZ);
+        if (memcmp(buf, tw.data(), sizeof(T) * SZ) != 0) { int bad = 0; for (int i = 0; i < SZ; ++i) if (memcmp(&buf[i], &tw.data()[i], sizeof(T)) != 0) { bad = i; break; }
+            cx.v->set(cx.si, "divergence/cross_handle", cx.opname, "%s: %s: buffer element %d is %.17g, two independent owning tensors with the same values give %.17g", cx.opname, cx.info->desc, bad, (double)buf[bad], (double)tw.data()[bad]); return; }
+        memcpy(shadow.data(), tw.data(), sizeof(T) * SZ); last_writer = hi;
+        if (cx.cnt) cx.cnt->bump("probe/handle assigned from another handle of the same storage");
+    };
+    // (source of the right-hand side when from_source: src has shape S1)
+    switch (hi * 3 + hj) {
+    case 1: go(*h0, (Ten0 *)nullptr, *h1, (Ten1 *)nullptr); break; case 2: go(*h0, (Ten0 *)nullptr, *h2, (Ten2 *)nullptr); break;
+    case 3: go(*h1, (Ten1 *)nullptr, *h0, (Ten0 *)nullptr); break; case 5: go(*h1, (Ten1 *)nullptr, *h2, (Ten2 *)nullptr); break;
+    case 6: go(*h2, (Ten2 *)nullptr, *h0, (Ten0 *)nullptr); break; default: go(*h2, (Ten2 *)nullptr, *h1, (Ten1 *)nullptr); break;
+    }
+}
 
 // constructors from external storage and layout conversions, checked by index arithmetic on the current contents
 template <class T, class S0, class S1, class S2> void MU<T, S0, S1, S2>::ctor_layout(Cx &cx) {
